@@ -21,7 +21,7 @@ def run(ctx):
         plan2 = ("ms:all:3,3:MS,MSFilterExact:1,3;ms:rand:12,12:10:MS,MSFilterTrue,MSFilterExact,MSFilterExactPlus:%s;"
                  "ms:blocky:12:5:MSC2F,MS:1,16;ms:sat:14:10:MSC2Fx0,MSC2Fx3,MSC2Fx6:0;ms:rand:9,8:20:MSFilterGeom,MSFilterGeomHi:1,16;ms:aligned:14:MSFilterGeom,MSFilterGeomHi:0;"
                  "ms:all:3,3:MSFilterGeom:0" % procs)
-        pland = "rand:4,2,8:12:1/4/0/0,2/5/0/0,8/6/1/0,3/10/0/0,1/0/1/0,16/7/0/1"
+        pland = "rand:4,2,8:12:1/4/0/0,2/5/0/0,8/6/1/0,3/10/0/0,1/0/1/0,16/7/0/1,2/5/0/0/-12"
     else:
         plan = ("all:2,2,2:MC,MCFilterExact,MCFilterExactPlus:%s;all:3,2,2:MC,MCFilterExact:1,16;"
                 "rand:6,6,6:60:MC,MCFilterTrue,MCFilterExact,MCFilterExactPlus:%s;"
